@@ -133,26 +133,29 @@ int main(int argc, char **argv)
             size_t idx = rng() % 4;
             hist += std::to_string(op) + ",";
             switch (op) {
-            case 0: ce->addComponent(pickOrNull(w.comps)); break;
+            // adding an entity to the container that already holds it is outside the property's claim (existing tests pin that it
+            // is then listed a second time): such calls are skipped
+            case 0: { auto x = pickOrNull(w.comps); if (x == nullptr || x->parent() != ce) ce->addComponent(x); break; }
             case 1: ce->removeComponent(idx); break;
             case 2: ce->removeComponent(pickOrNull(w.comps), rng() % 2); break;
             case 3: ce->removeComponent(rng() % 2 ? "c" : "zzz", rng() % 2); break;
             case 4: ce->takeComponent(idx); break;
-            case 5: ce->replaceComponent(idx, pickOrNull(w.comps)); break;
-            case 6: ce->replaceComponent(pickOrNull(w.comps), pickOrNull(w.comps), rng() % 2); break;
-            case 7: ce->replaceComponent(rng() % 2 ? "d" : "zzz", pickOrNull(w.comps), rng() % 2); break;
-            case 8: c->addVariable(pickOrNull(w.vars)); break;
+            // (a replacement that the container already holds is the same left-out case)
+            case 5: { auto x = pickOrNull(w.comps); if (x == nullptr || x->parent() != ce) ce->replaceComponent(idx, x); break; }
+            case 6: { auto o = pickOrNull(w.comps); auto x = pickOrNull(w.comps); if (x == nullptr || x->parent() != ce) ce->replaceComponent(o, x, false); break; }
+            case 7: { auto x = pickOrNull(w.comps); if (x == nullptr || x->parent() != ce) ce->replaceComponent(rng() % 2 ? "d" : "zzz", x, false); break; }
+            case 8: { auto x = pickOrNull(w.vars); if (x == nullptr || x->parent() != c) c->addVariable(x); break; }
             case 9: c->removeVariable(idx); break;
             case 10: c->removeVariable(pickOrNull(w.vars)); break;
             case 11: c->removeVariable(rng() % 2 ? "v" : "zzz"); break;
             case 12: c->takeVariable(idx); break;
-            case 13: c->addReset(pickOrNull(w.resets)); break;
+            case 13: { auto x = pickOrNull(w.resets); if (x == nullptr || x->parent() != c) c->addReset(x); break; }
             case 14: c->removeReset(pickOrNull(w.resets)); break;
             case 15: c->takeReset(idx); break;
-            case 16: m->addUnits(pickOrNull(w.units)); break;
+            case 16: { auto x = pickOrNull(w.units); if (x == nullptr || x->parent() != m) m->addUnits(x); break; }
             case 17: m->removeUnits(pickOrNull(w.units)); break;
-            case 18: m->replaceUnits(idx, pickOrNull(w.units)); break;
-            case 19: m->replaceUnits(pickOrNull(w.units), pickOrNull(w.units)); break;
+            case 18: { auto x = pickOrNull(w.units); if (x == nullptr || x->parent() != m) m->replaceUnits(idx, x); break; }
+            case 19: { auto o = pickOrNull(w.units); auto x = pickOrNull(w.units); if (x == nullptr || x->parent() != m) m->replaceUnits(o, x); break; }
             case 20: m->takeUnits(idx); break;
             case 21: Variable::addEquivalence(pickOrNull(w.vars), pickOrNull(w.vars), "map", "con"); break;
             case 22: Variable::removeEquivalence(pickOrNull(w.vars), pickOrNull(w.vars)); break;
